@@ -5,8 +5,10 @@ os.chdir(root)
 props={}
 for l in open('/verif/properties.jsonl'):
     p=json.loads(l); props[p['id']]=set(p['anchors']['files'])
+# C08 ranges over both matchers: the match finders carry it; only these files are donated to C08 (see C08ONLY below)
 extra={'C12':{'format.go'},'C07':{'lzma/decoderdict.go','lzma/buffer.go'},'C02':{'lzma/encoderdict.go','lzma/buffer.go'},'C06':{'lzma/encoderdict.go','lzma/buffer.go','lzma/rangecodec.go','lzma/state.go','lzma/literalcodec.go','lzma/lengthcodec.go','lzma/distcodec.go','lzma/treecodecs.go','lzma/prob.go'}}
 for k,v in extra.items(): props[k]|=v
+C08ONLY={'lzma/bintree.go','lzma/hashtable.go','lzma/matchalgorithm.go'}
 pairs=[('C06','C01'),('C07','C03'),('C02','C01'),('C07','C11'),('C06','C09'),
        # reader side: completeness, soundness, truncation and no-panic obligations of one function belong to all four
        ('C03','C04'),('C03','C05'),('C03','C11'),('C04','C03'),('C04','C05'),('C04','C11'),('C11','C03'),('C11','C04'),('C11','C05'),('C05','C03'),('C05','C04'),('C12','C04'),('C12','C05'),('C13','C05')]
@@ -26,6 +28,8 @@ for pkgdir,cfile in [('.','zz_contracts_verif.go'),('lzma','lzma/zz_contracts_ve
             ps=l.split()[2:]
             f=decls.get(cur)
             if not f: continue
+            if 'C01' in ps and 'C08' not in ps and f in C08ONLY:
+                ps.append('C08'); tot['C08']=tot.get('C08',0)+1
             for tgt,donor in pairs:
                 if donor in ps and tgt not in ps and f in props[tgt]:
                     ps.append(tgt); tot[tgt]=tot.get(tgt,0)+1
